@@ -190,6 +190,7 @@ struct Thread {
   // wait condition arguments
   std::vector<struct pollfd_sim> *pfds = nullptr;
   OFD *wait_ofd = nullptr;
+  size_t wait_need = 1;
   int wait_pid = 0;
   // api context
   int op = -1;            // global op index being executed, -1 outside API
